@@ -62,15 +62,73 @@ theorem run_serves (ops : List Op) (s : SPool) (ha : ∀ op ∈ ops, IsAlloc op)
     | head => rw [h1.1]; simp
     | tail _ ho' => exact this.1 o ho'
 
+/-! ### request streams that also free and reset -/
+
+/-- malloc / calloc / free / reset (no user writes) -/
+def IsReq : Op → Prop
+  | .write _ _ _ => False
+  | _ => True
+
+/-- every allocation request of the history got a non-NULL answer -/
+def Served : List Op → List (Option Nat) → Prop
+  | [], [] => True
+  | op :: ops, o :: os => (IsAlloc op → o ≠ none) ∧ Served ops os
+  | _, _ => False
+
+theorem blocksLen_tail_le (bs : List (Nat × Nat)) : blocksLen bs.tail ≤ blocksLen bs := by
+  cases bs with
+  | nil => exact Nat.le_refl _
+  | cons b bs => simp only [List.tail_cons, blocksLen]; omega
+
+/-- `free` and `reset` never increase `used` and never change the size: they can only help -/
+theorem nonalloc_step (s : SPool) (op : Op) (hr : IsReq op) (hna : ¬ IsAlloc op) :
+    (s.step op).2.used ≤ s.used ∧ (s.step op).2.size = s.size := by
+  cases op with
+  | malloc n => exact (hna trivial).elim
+  | calloc c k => exact (hna trivial).elim
+  | release p =>
+    simp only [step, release]
+    split
+    · split
+      · rename_i hb _
+        simp only [used, hb, blocksLen]; exact ⟨by omega, by first | rfl | trivial⟩
+      · exact ⟨Nat.le_refl _, rfl⟩
+    · exact ⟨Nat.le_refl _, rfl⟩
+  | reset => exact ⟨by simp [step, reset, used, blocksLen], rfl⟩
+  | write off n v => exact hr.elim
+
+/-- any stream of malloc/calloc/free/reset whose **allocation** sizes sum to at most the free space
+at the start is served without a NULL (frees and resets in between only make room) -/
+theorem stream_serves (ops : List Op) (s : SPool) (hr : ∀ op ∈ ops, IsReq op) (hu : s.used ≤ s.size)
+    (hfit : reqTotal ops ≤ s.free) : Served ops (s.run ops).1 ∧ (s.run ops).2.used ≤ (s.run ops).2.size := by
+  induction ops generalizing s with
+  | nil => exact ⟨trivial, hu⟩
+  | cons op ops ih =>
+    simp only [reqTotal] at hfit
+    simp only [run, Served]
+    by_cases ha : IsAlloc op
+    · have h1 := step_serves s op ha (by omega)
+      have hfree : (s.step op).2.free = s.free - reqSize op := by
+        simp only [free] at *; rw [h1.2.1, h1.2.2.1]; omega
+      have := ih (s.step op).2 (fun o ho => hr o (List.mem_cons_of_mem _ ho))
+        (by rw [h1.2.1, h1.2.2.1]; simp only [free] at hfit; omega) (by rw [hfree]; omega)
+      exact ⟨⟨fun _ => by rw [h1.1]; simp, this.1⟩, this.2⟩
+    · have h1 := nonalloc_step s op (hr op (List.mem_cons_self ..)) ha
+      have h0 : reqSize op = 0 := by
+        cases op <;> first | rfl | exact (ha trivial).elim
+      have := ih (s.step op).2 (fun o ho => hr o (List.mem_cons_of_mem _ ho)) (by rw [h1.2]; omega)
+        (by simp only [free] at *; rw [h1.2]; omega)
+      exact ⟨⟨fun h => (ha h).elim, this.1⟩, this.2⟩
+
 end SPool
 
 /-! ## dynamic pool -/
 namespace DPool
 
-/-- allocation requests that the allocator is not going to refuse -/
+/-- allocation requests -/
 def IsAlloc : Op → Prop
-  | .malloc _ r => r = false
-  | .calloc _ _ r => r = false
+  | .malloc _ _ => True
+  | .calloc _ _ _ => True
   | _ => False
 
 def reqSize : Op → Nat
@@ -78,17 +136,42 @@ def reqSize : Op → Nat
   | .calloc c k _ => c * k
   | _ => 0
 
-/-- what the induction carries: an expandable pool whose newest page has at least the initial
-payload `S0` and is addressable; the configuration is the initial one -/
+/-- an admissible request: malloc/calloc that the page allocator is not going to refuse, of a size
+below the initial page size `S0` also with its padding; free; reset (no user writes) -/
+def ReqOk (S0 : Nat) (packed : Bool) (ab : Nat) : Op → Prop
+  | .malloc n r => r = false ∧ n < S0 ∧ n + padOf packed ab n ≤ S0
+  | .calloc c k r => r = false ∧ c * k < S0 ∧ c * k + padOf packed ab (c * k) ≤ S0
+  | .release _ => True
+  | .reset => True
+  | .write _ _ _ => False
+
+/-- every allocation request of the history got a non-NULL answer -/
+def Served : List Op → List (Option (Nat × Nat)) → Prop
+  | [], [] => True
+  | op :: ops, o :: os => (IsAlloc op → o ≠ none) ∧ Served ops os
+  | _, _ => False
+
+/-- what the induction carries: an expandable pool all of whose pages have at least the initial
+payload `S0` and are addressable; the configuration is the initial one -/
 def Serving (S0 : Nat) (packed : Bool) (ab : Nat) (s : DPool) : Prop :=
-  s.fixed = false ∧ s.packed = packed ∧ s.ab = ab ∧ S0 ≤ s.top.size ∧ s.top.size ≤ pageLimit
+  s.fixed = false ∧ s.packed = packed ∧ s.ab = ab ∧ s.pages ≠ [] ∧ ∀ p ∈ s.pages, S0 ≤ p.size ∧ p.size ≤ pageLimit
+
+theorem serving_top (S0 ab : Nat) (packed : Bool) (s : DPool) (h : Serving S0 packed ab s) :
+    S0 ≤ s.top.size ∧ s.top.size ≤ pageLimit := by
+  obtain ⟨_, _, _, hne, hall⟩ := h
+  cases hp : s.pages with
+  | nil => exact (hne hp).elim
+  | cons p ps =>
+    have : s.top = p := by simp [top, hp]
+    rw [this]; exact hall p (by rw [hp]; exact List.mem_cons_self ..)
 
 theorem malloc_serves (grow : Nat → Nat) (fresh S0 ab : Nat) (packed : Bool) (s : DPool) (n : Nat)
     (hg : ∀ c, c ≤ pageLimit → c ≤ grow c ∧ grow c ≤ pageLimit) (hs : Serving S0 packed ab s)
     (hn : n < S0) (hpad : n + padOf packed ab n ≤ S0) :
     (malloc grow fresh s n false).1 ≠ none ∧ Serving S0 packed ab (malloc grow fresh s n false).2 := by
-  obtain ⟨h1, h2, h3, h4, h5⟩ := hs
-  have hgt := hg s.top.size h5
+  have htop := serving_top S0 ab packed s hs
+  obtain ⟨h1, h2, h3, hne, hall⟩ := hs
+  have hgt := hg s.top.size htop.2
   unfold malloc
   have a1 : ¬ n ≥ s.top.size := by omega
   simp only [a1, if_false, h2, h3]
@@ -97,68 +180,95 @@ theorem malloc_serves (grow : Nat → Nat) (fresh S0 ab : Nat) (packed : Bool) (
     refine ⟨by simp, ?_⟩
     simp only [pushBlock]
     cases hp : s.pages with
-    | nil => exact ⟨h1, h2, h3, h4, h5⟩
+    | nil => exact (hne hp).elim
     | cons p ps =>
-      have : s.top = p := by simp [top, hp]
-      rw [this] at h4 h5
-      exact ⟨h1, h2, h3, by simpa [top] using h4, by simpa [top] using h5⟩
+      refine ⟨h1, h2, h3, by simp, ?_⟩
+      intro q hq
+      cases hq with
+      | head => exact hall p (by rw [hp]; exact List.mem_cons_self ..)
+      | tail _ hq' => exact hall q (by rw [hp]; exact List.mem_cons_of_mem _ hq')
   · have a3 : ¬ n + padOf packed ab n > grow s.top.size := by omega
     have a4 : ¬ grow s.top.size > pageLimit := by omega
     simp only [hfit, if_false, h1, a3, a4, Bool.false_or, decide_false, Bool.false_eq_true]
-    refine ⟨by simp, rfl, rfl, rfl, ?_, ?_⟩
-    · show S0 ≤ grow s.top.size; omega
-    · show grow s.top.size ≤ pageLimit; omega
+    refine ⟨by simp, rfl, rfl, rfl, by simp, ?_⟩
+    intro q hq
+    cases hq with
+    | head => exact ⟨by show S0 ≤ grow s.top.size; omega, by show grow s.top.size ≤ pageLimit; omega⟩
+    | tail _ hq' => exact hall q hq'
 
 theorem fillTop_serving (S0 ab : Nat) (packed : Bool) (s : DPool) (off n v : Nat) (hs : Serving S0 packed ab s) :
     Serving S0 packed ab (s.fillTop off n v) := by
-  obtain ⟨h1, h2, h3, h4, h5⟩ := hs
+  obtain ⟨h1, h2, h3, hne, hall⟩ := hs
   simp only [fillTop]
   cases hp : s.pages with
-  | nil => exact ⟨h1, h2, h3, h4, h5⟩
+  | nil => exact (hne hp).elim
   | cons p ps =>
-    have : s.top = p := by simp [top, hp]
-    rw [this] at h4 h5
-    exact ⟨h1, h2, h3, by simpa [top] using h4, by simpa [top] using h5⟩
+    refine ⟨h1, h2, h3, by simp, ?_⟩
+    intro q hq
+    cases hq with
+    | head => exact hall p (by rw [hp]; exact List.mem_cons_self ..)
+    | tail _ hq' => exact hall q (by rw [hp]; exact List.mem_cons_of_mem _ hq')
 
-/-- one request smaller than the initial page (with its padding) is served, by the current page or
-by a new one -/
+/-- one admissible request: allocations are served (by the current page or a new one), frees and
+resets keep the pool serving -/
 theorem step_serves (grow : Nat → Nat) (fresh S0 ab : Nat) (packed : Bool) (s : DPool) (op : Op)
     (hg : ∀ c, c ≤ pageLimit → c ≤ grow c ∧ grow c ≤ pageLimit) (hs : Serving S0 packed ab s)
-    (ha : IsAlloc op) (hn : reqSize op < S0) (hpad : reqSize op + padOf packed ab (reqSize op) ≤ S0) :
-    (step grow fresh s op).1 ≠ none ∧ Serving S0 packed ab (step grow fresh s op).2 := by
+    (ha : ReqOk S0 packed ab op) :
+    (IsAlloc op → (step grow fresh s op).1 ≠ none) ∧ Serving S0 packed ab (step grow fresh s op).2 := by
   cases op with
   | malloc n r =>
-    simp only [IsAlloc] at ha; subst ha
-    exact malloc_serves grow fresh S0 ab packed s n hg hs hn hpad
+    obtain ⟨hr, hn, hpad⟩ := ha; subst hr
+    have := malloc_serves grow fresh S0 ab packed s n hg hs hn hpad
+    exact ⟨fun _ => this.1, this.2⟩
   | calloc c k r =>
-    simp only [IsAlloc] at ha; subst ha
+    obtain ⟨hr, hn, hpad⟩ := ha; subst hr
     have := malloc_serves grow fresh S0 ab packed s (c * k) hg hs hn hpad
     simp only [step, calloc]
     cases hm : (malloc grow fresh s (c * k) false).1 with
     | none => exact (this.1 hm).elim
-    | some a => exact ⟨by simp, fillTop_serving S0 ab packed _ _ _ _ this.2⟩
-  | release p => exact ha.elim
-  | reset => exact ha.elim
+    | some a => exact ⟨fun _ => by simp, fillTop_serving S0 ab packed _ _ _ _ this.2⟩
+  | release p =>
+    refine ⟨fun h => h.elim, ?_⟩
+    obtain ⟨h1, h2, h3, hne, hall⟩ := hs
+    simp only [step, release]
+    split
+    · rename_i pg ps a _ hpg
+      split
+      · split
+        · refine ⟨h1, h2, h3, by simp, ?_⟩
+          intro q hq
+          cases hq with
+          | head => exact hall pg (by rw [hpg]; exact List.mem_cons_self ..)
+          | tail _ hq' => exact hall q (by rw [hpg]; exact List.mem_cons_of_mem _ hq')
+        · exact ⟨h1, h2, h3, hne, hall⟩
+      · exact ⟨h1, h2, h3, hne, hall⟩
+    · exact ⟨h1, h2, h3, hne, hall⟩
+  | reset =>
+    refine ⟨fun h => h.elim, ?_⟩
+    obtain ⟨h1, h2, h3, hne, hall⟩ := hs
+    simp only [step, reset]
+    split
+    · rename_i q hq
+      refine ⟨h1, h2, h3, by simp, ?_⟩
+      intro r hr
+      simp only [List.mem_singleton] at hr
+      subst hr
+      exact hall q (List.mem_of_getLast? hq)
+    · exact ⟨h1, h2, h3, hne, hall⟩
   | write off n v => exact ha.elim
 
-/-- any sequence of such requests is served without a NULL, however long -/
+/-- any stream of admissible requests — allocations interleaved with frees and resets, however long —
+is served without a NULL -/
 theorem run_serves (grow : Nat → Nat) (fresh S0 ab : Nat) (packed : Bool)
     (hg : ∀ c, c ≤ pageLimit → c ≤ grow c ∧ grow c ≤ pageLimit) (ops : List Op) (s : DPool)
-    (hs : Serving S0 packed ab s)
-    (ha : ∀ op ∈ ops, IsAlloc op ∧ reqSize op < S0 ∧ reqSize op + padOf packed ab (reqSize op) ≤ S0) :
-    (∀ o ∈ (run grow fresh s ops).1, o ≠ none) ∧ (run grow fresh s ops).1.length = ops.length := by
+    (hs : Serving S0 packed ab s) (ha : ∀ op ∈ ops, ReqOk S0 packed ab op) :
+    Served ops (run grow fresh s ops).1 := by
   induction ops generalizing s with
-  | nil => simp [run]
+  | nil => trivial
   | cons op ops ih =>
-    obtain ⟨a1, a2, a3⟩ := ha op (List.mem_cons_self ..)
-    have h1 := step_serves grow fresh S0 ab packed s op hg hs a1 a2 a3
-    have := ih (step grow fresh s op).2 h1.2 (fun o ho => ha o (List.mem_cons_of_mem _ ho))
-    simp only [run, List.length_cons]
-    refine ⟨?_, by rw [this.2]⟩
-    intro o ho
-    cases ho with
-    | head => exact h1.1
-    | tail _ ho' => exact this.1 o ho'
+    have h1 := step_serves grow fresh S0 ab packed s op hg hs (ha op (List.mem_cons_self ..))
+    simp only [run, Served]
+    exact ⟨h1.1, ih _ h1.2 (fun o ho => ha o (List.mem_cons_of_mem _ ho))⟩
 
 end DPool
 end CC.Spec
@@ -185,23 +295,31 @@ theorem malloc_sched_nil (grow : Nat → Nat) (fresh : Nat) (s : DynamicPool) (n
   · exact (Mem.allocT_nil m s.triple h).2
   · exact (Mem.allocT_nil m s.triple h).2
 
-/-- allocation requests keep a non-refusing allocator non-refusing, and their annotation is the
-request itself with the refusal flag `false` -/
-theorem alloc_step_noRefuse (grow : Nat → Nat) (fresh : Nat) (s : DynamicPool) (op : Op) (m : Mem)
-    (h : NoRefuse s m) (ha : Spec.DPool.IsAlloc op) :
-    NoRefuse (step grow fresh s op m).2.1 (step grow fresh s op m).2.2 ∧ annotate s op m = op := by
+theorem resetLoop_sched (t : Triple) (ps : List PPage) (m : Mem) : (resetLoop t ps m).2.sched = m.sched := by
+  induction ps generalizing m with
+  | nil => simp [resetLoop]
+  | cons p rest ih =>
+    cases rest with
+    | nil => rfl
+    | cons q r => simp only [resetLoop]; rw [ih, Mem.freeT_sched]
+
+/-- admissible requests keep a non-refusing allocator non-refusing, and their annotation is the
+request itself -/
+theorem req_step_noRefuse (grow : Nat → Nat) (fresh S0 ab : Nat) (packed : Bool) (s : DynamicPool) (op : Op) (m : Mem)
+    (h : NoRefuse s m) (ha : Spec.DPool.ReqOk S0 packed ab op) :
+    NoRefuse (step grow fresh s op m).2.1 (step grow fresh s op m).2.2 ∧ annotate s op m = op ∧ OpOk s op := by
   have htr := step_triple grow fresh s op m
   have hal := noRefuse_alloc s m h
   cases op with
   | malloc n r =>
-    simp only [Spec.DPool.IsAlloc] at ha; subst ha
-    refine ⟨?_, by simp [annotate, hal]⟩
+    obtain ⟨hr, _, _⟩ := ha; subst hr
+    refine ⟨?_, by simp [annotate, hal], trivial⟩
     rcases h with h | h
     · exact Or.inl (malloc_sched_nil grow fresh s n m h)
     · exact Or.inr (by rw [htr, h])
   | calloc c k r =>
-    simp only [Spec.DPool.IsAlloc] at ha; subst ha
-    refine ⟨?_, by simp [annotate, hal]⟩
+    obtain ⟨hr, _, _⟩ := ha; subst hr
+    refine ⟨?_, by simp [annotate, hal], trivial⟩
     rcases h with h | h
     · left
       simp only [step, calloc]
@@ -211,27 +329,27 @@ theorem alloc_step_noRefuse (grow : Nat → Nat) (fresh : Nat) (s : DynamicPool)
         · simp [malloc_sched_nil grow fresh s _ m h]
         · exact malloc_sched_nil grow fresh s _ m h
     · exact Or.inr (by rw [htr, h])
-  | release p => exact ha.elim
-  | reset => exact ha.elim
+  | release p =>
+    refine ⟨?_, rfl, trivial⟩
+    rcases h with h | h
+    · exact Or.inl h
+    · exact Or.inr (by rw [htr, h])
+  | reset =>
+    refine ⟨?_, rfl, trivial⟩
+    rcases h with h | h
+    · left; simp only [step, reset]; split <;> (rw [resetLoop_sched]; exact h)
+    · exact Or.inr (by rw [htr, h])
   | write off n v => exact ha.elim
 
-theorem alloc_run_annot (grow : Nat → Nat) (fresh : Nat) (ops : List Op) (s : DynamicPool) (m : Mem)
-    (h : NoRefuse s m) (ha : ∀ op ∈ ops, Spec.DPool.IsAlloc op) : (run grow fresh s ops m).2.1 = ops := by
+theorem req_run_annot (grow : Nat → Nat) (fresh S0 ab : Nat) (packed : Bool) (ops : List Op) (s : DynamicPool) (m : Mem)
+    (h : NoRefuse s m) (ha : ∀ op ∈ ops, Spec.DPool.ReqOk S0 packed ab op) :
+    (run grow fresh s ops m).2.1 = ops ∧ RunOk grow fresh s ops m := by
   induction ops generalizing s m with
-  | nil => rfl
+  | nil => exact ⟨rfl, trivial⟩
   | cons op ops ih =>
-    have h1 := alloc_step_noRefuse grow fresh s op m h (ha op (List.mem_cons_self ..))
+    have h1 := req_step_noRefuse grow fresh S0 ab packed s op m h (ha op (List.mem_cons_self ..))
+    have := ih _ _ h1.1 (fun o ho => ha o (List.mem_cons_of_mem _ ho))
     simp only [run]
-    rw [h1.2, ih _ _ h1.1 (fun o ho => ha o (List.mem_cons_of_mem _ ho))]
-
-/-- allocation requests meet the preconditions of `RunOk` (which only constrains user writes) -/
-theorem alloc_runOk (grow : Nat → Nat) (fresh : Nat) (ops : List Op) (s : DynamicPool) (m : Mem)
-    (ha : ∀ op ∈ ops, Spec.DPool.IsAlloc op) : RunOk grow fresh s ops m := by
-  induction ops generalizing s m with
-  | nil => trivial
-  | cons op ops ih =>
-    refine ⟨?_, ih _ _ (fun o ho => ha o (List.mem_cons_of_mem _ ho))⟩
-    have := ha op (List.mem_cons_self ..)
-    cases op <;> first | trivial | exact this.elim
+    exact ⟨by rw [h1.2.1, this.1], h1.2.2, this.2⟩
 
 end CC.DynamicPool
